@@ -376,15 +376,21 @@ impl UnifyProp {
                 {
                     let (a, b) = &hh[0];
                     for (fact, goal) in [(a, b), (b, a)] {
-                        for wide in [false, true] {
-                            let fargs = if wide { vec![Term::atom("k"), fact.clone()] } else { vec![fact.clone()] };
-                            let qargs = if wide { vec![Term::atom("k"), goal.clone()] } else { vec![goal.clone()] };
+                        for shape in 0..3 {
+                            let wide = shape == 1;
+                            // shape 2: two complex terms of the same arity give their arguments as the top-level arguments of
+                            // fact and query (p(x1, .., xn) asked with p(y1, .., yn)): variables repeated among bare arguments
+                            let spread = match (fact, goal) { (Term::Cmp(_, xs), Term::Cmp(_, ys)) if xs.len() == ys.len() && xs.len() >= 2 => Some((xs.clone(), ys.clone())), _ => None };
+                            if shape == 2 && spread.is_none() { continue; }
+                            let fargs = if shape == 2 { spread.clone().unwrap().0 } else if wide { vec![Term::atom("k"), fact.clone()] } else { vec![fact.clone()] };
+                            let qargs = if shape == 2 { spread.clone().unwrap().1 } else if wide { vec![Term::atom("k"), goal.clone()] } else { vec![goal.clone()] };
+                            let fargs_len = fargs.len();
                             let mut qv = vec![]; for t in &qargs { t.vars(&mut qv); }
                             // the query's variables get their own names: fact and query never share variables
                             let qargs: Vec<Term> = qargs.iter().map(|t| t.map_vars(&mut |n: &str| Term::Var(format!("$Q{}", n.trim_start_matches('$'))))).collect();
-                            let prog = Program { clauses: vec![Clause { name: "p".into(), args: fargs, body: None }, Clause { name: "p".into(), args: vec![Term::atom("zz"); if wide { 2 } else { 1 }], body: None }], qname: "p".into(), qargs };
+                            let prog = Program { clauses: vec![Clause { name: "p".into(), args: fargs, body: None }, Clause { name: "p".into(), args: vec![Term::atom("zz"); fargs_len], body: None }], qname: "p".into(), qargs };
                             match crate::props::solver::compare_answers_src(self.id, &prog, None, 0) {
-                                Ok(_) => { rep.class("head/goal pair through the knowledge base"); }
+                                Ok(_) => { rep.class(if shape == 2 { "head/goal pair through the knowledge base, arguments spread over p/n" } else { "head/goal pair through the knowledge base" }); }
                                 Err(CaseResult::Discard(_)) => {}
                                 Err(r) => return r,
                             }
